@@ -129,6 +129,10 @@ pub struct Op {
     /// entries of the allow / exclude list (by position) whose descriptor type is "unknown"
     #[serde(default)]
     pub unknown_type: Vec<bool>,
+    /// transport hints of the list entries (by position): 0 none, 1 ["usb"], 2 ["internal"],
+    /// 3 [] (empty), 4 ["usb","nfc","ble"], 5 ["hybrid","internal"]
+    #[serde(default)]
+    pub list_transports: Vec<u8>,
 }
 
 #[derive(Serialize, Deserialize, Clone, Debug, PartialEq)]
